@@ -163,7 +163,7 @@ def _vol_cases(ctx):
     cases = [([], "count-0"),
              ([[Fraction(1), Fraction(0), Fraction(0)], [Fraction(0), Fraction(0), Fraction(1)], [Fraction(0), Fraction(1), Fraction(0)]],
               "left-handed-unit")]
-    for _ in range(ctx.n(150, 2500)):
+    for _ in range(ctx.n(300, 2500)):
         kind = rng.choice(["int", "int", "dyadic", "axis", "large"])
         nv = rng.choice([1, 2, 3, 3, 3])
         vs = [_rand_vec(rng, kind) for _ in range(nv)]
@@ -529,6 +529,21 @@ def check_checkdm(s, d, occ, eps, occ_max):
     return None
 
 
+def check_checkdm_stub(eps, occ_max, occs):
+    """decision logic of the real check_dm on exactly representable occupations (derive_naturals stubbed);
+    eps/occ_max/occs are strings of Fractions"""
+    eps, occ_max, occs = Fraction(eps), Fraction(occ_max), [Fraction(o) for o in occs]
+    got = impl_checkdm(eps, occ_max, occs, False)
+    inside = all(-eps <= o <= occ_max + eps for o in occs)
+    if got == "ok" and not inside:
+        return ("checkdm-accepts-out-of-range", f"occupations {[str(o) for o in occs]} accepted with eps={eps} occ_max={occ_max}")
+    if got != "ok" and inside:
+        return ("checkdm-rejects-in-range", f"occupations {[str(o) for o in occs]} rejected ({got}) with eps={eps} occ_max={occ_max}")
+    if got not in ("ok", "err ValueError:min", "err ValueError:max"):
+        return ("checkdm-exception", f"check_dm: {got}")
+    return None
+
+
 def _dm_case(rng, n):
     kind = rng.choice(["generic", "degenerate", "zeros", "integer", "closed-shell"])
     s, d, occ = _rand_problem(rng, n, kind)
@@ -571,8 +586,16 @@ def search(ctx):
         ctx.count("search-strtobool", s, cls + ("/ok" if r is None else "/bad"))
         if r:
             ctx.fail(r[0], r[1], {"kind": "strtobool", "s": s})
+    # check_dm decision logic on exact thresholds (derive_naturals stubbed)
+    for eps, occ_max, occs, cls, dflt in _checkdm_cases(ctx):
+        if dflt:
+            continue
+        r = check_checkdm_stub(eps, occ_max, occs)
+        ctx.count("search-checkdm-exact", [str(eps), str(occ_max), [str(o) for o in occs]], cls + ("/ok" if r is None else "/" + r[0]))
+        if r:
+            ctx.fail(r[0], r[1], {"kind": "checkdm-stub", "eps": str(eps), "occ_max": str(occ_max), "occs": [str(o) for o in occs]})
     # derive_naturals / check_dm
-    for rep in range(ctx.n(8, 120) * mult):
+    for rep in range(ctx.n(20, 120) * mult):
         for n in range(1, 13):
             kind, s, d, occ = _dm_case(rng, n)
             r = check_naturals(s, d, occ)
@@ -612,6 +635,8 @@ def replay(ctx, obj):
         return check_strtobool(inp["s"]) is not None
     if k == "naturals":
         return check_naturals(np.array(inp["s"]), np.array(inp["d"]), np.array(inp["occ"])) is not None
+    if k == "checkdm-stub":
+        return check_checkdm_stub(inp["eps"], inp["occ_max"], inp["occs"]) is not None
     if k == "checkdm":
         return check_checkdm(np.array(inp["s"]), np.array(inp["d"]), np.array(inp["occ"]), inp["eps"], inp["occ_max"]) is not None
     return True
